@@ -335,7 +335,11 @@ func cmdCheck(args []string) int {
 		if re != nil && !re.MatchString(c.Key) {
 			continue
 		}
-		if c.Trusted {
+		if c.Trusted || strings.HasPrefix(c.Key, "fieldfunc.") || strings.HasPrefix(c.Key, "functype.") {
+			if strings.HasPrefix(c.Key, "fieldfunc.") || strings.HasPrefix(c.Key, "functype.") {
+				c.Trusted = true
+				c.TrustNote = "contract of a function value (assumed for every function stored there)"
+			}
 			continue
 		}
 		need[c.Pkg] = true
